@@ -8,7 +8,7 @@ import json
 import os
 
 KINDS = {
-    "format_str": ("raise", "garbage", "truncated", "exit"),
+    "format_str": ("raise", "garbage", "truncated", "exit", "fragdiff"),
     "sp_run": ("raise", "nonzero", "killed", "garbage", "truncated", "badutf8", "exit"),
     "generate_tokens": ("raise", "exit"),
     "read_text": ("raise", "exit"),
@@ -62,6 +62,12 @@ def make(target=None, counts_file=".counts.json"):
 
         def format_str(src, **kw):
             k = hit("format_str")
+            if k == "fragdiff":
+                # valid python with another meaning - only for a value fragment: for a whole file such an answer cannot be
+                # told from a formatter that legitimately rewrites code, for a fragment the generated value would change
+                if "def test_" in src or "import " in src:
+                    return real_format_str(src, **kw)
+                return "None\n"
             if k == "raise":
                 raise InjectedFault("format_str")
             if k == "exit":
